@@ -64,8 +64,21 @@ def run(prop, path):
     shutil.copy(os.path.join(REPO, "Cargo.lock"), os.path.join(root, "Cargo.lock"))
     open(os.path.join(root, ".cargo", "config.toml"), "w").write("[net]\noffline = true\n")
     open(os.path.join(root, "src", "lib.rs"), "w").write("#![allow(warnings)]\nuse ::enum_tools::EnumTools;\n" + r["rust"] + "\n")
-    # (a verdict recorded with an optimised derive is reproduced the same way: --release builds the proc-macro without overflow checks)
-    rc, msgs, err = run_rt.cargo_json(root, ["--lib"] + (["--release"] if r.get("profile") == "release" else []))
+    # (a verdict recorded with an optimised derive is reproduced the same way: --release builds the proc-macro without overflow checks;
+    #  one recorded in a non-primary package: the item is moved into a dependency of the crate that is built)
+    if r.get("profile") == "dependency":
+        os.makedirs(os.path.join(root, "dep"))
+        os.makedirs(os.path.join(root, "user", "src"))
+        shutil.move(os.path.join(root, "src"), os.path.join(root, "dep", "src"))
+        open(os.path.join(root, "dep", "Cargo.toml"), "w").write(
+            "[package]\nname = \"dep\"\nversion = \"0.0.0\"\nedition = \"2021\"\n[dependencies]\nenum-tools = { path = \"%s\" }\n" % REPO)
+        open(os.path.join(root, "user", "Cargo.toml"), "w").write(
+            "[package]\nname = \"user\"\nversion = \"0.0.0\"\nedition = \"2021\"\n[dependencies]\ndep = { path = \"../dep\" }\n")
+        open(os.path.join(root, "user", "src", "lib.rs"), "w").write("\n")
+        open(os.path.join(root, "Cargo.toml"), "w").write("[workspace]\nresolver = \"2\"\nmembers = [\"user\"]\nexclude = [\"dep\"]\n")
+        rc, msgs, err = run_rt.cargo_json(root, ["-p", "user", "--lib"])
+    else:
+        rc, msgs, err = run_rt.cargo_json(root, ["--lib"] + (["--release"] if r.get("profile") == "release" else []))
     accepted = rc == 0
     if eng == "verdict":
         still = (r["why"] == "rejected" and not accepted) or (r["why"] == "accepted" and accepted)
